@@ -492,6 +492,24 @@ void point(int kind, uintptr_t addr) {
 
 void yield_hint() {}
 
+// Fault: a sleep is interrupted (EINTR) after part of its duration. Returns the
+// shortened duration, or -1 if the sleep is not disturbed. Recorded for replay.
+int64_t fault_short_sleep(int64_t ns) {
+  Thread* me = self;
+  if (!G.faults || ns <= 0) return -1;
+  if (G.replay) {
+    auto range = G.rmap.equal_range(dkey(me->id, me->op, me->k));
+    for (auto it = range.first; it != range.second; ++it)
+      if (it->second.kind == D_EARLY) { G.faultc["sleep_eintr"]++; return it->second.arg < ns ? it->second.arg : ns; }
+    return -1;
+  }
+  if (!G.srng.chance(1, 40)) return -1;
+  int64_t part = (int64_t)G.srng.below((uint64_t)ns);
+  log_dec(me, D_EARLY, part);
+  G.faultc["sleep_eintr"]++;
+  return part;
+}
+
 // The current thread blocks. State is set, another thread chosen.
 void block(State st, uintptr_t addr, int64_t deadline, int wait_tid) {
   Thread* me = self;
